@@ -43,15 +43,21 @@ class PStore:
 
 
 class WritePathStores:
-    def __init__(self, ix, cg, te: TermEval, entry: FuncInfo, per_write_classes: set, sources: Optional[dict] = None):
+    def __init__(self, ix, cg, te: TermEval, entry, per_write_classes: set, sources: Optional[dict] = None,
+                 source_term=None):
+        """entry: a function (its parameters are the provenance sources unless `sources` is given) or a list of
+        functions; source_term: optional predicate on terms - a term satisfying it is a provenance source itself (used
+        for the nondeterminism inventory, where the sources are calls like random / now)."""
         self.ix, self.cg, self.te = ix, cg, te
-        self.entry = entry
+        entries = entry if isinstance(entry, (list, tuple)) else [entry]
+        self.entry = entries[0]
         self.per_write = per_write_classes
-        self.reach = [f for f in cg.reachable([entry]) if isinstance(f.node, (ast.FunctionDef, ast.AsyncFunctionDef,
-                                                                           ast.Lambda))]
+        self.source_term = source_term
+        self.reach = [f for f in cg.reachable(list(entries)) if isinstance(f.node, (ast.FunctionDef, ast.AsyncFunctionDef,
+                                                                                  ast.Lambda))]
         self.reach_set = set(self.reach)
         self.derived_params: dict = {f: set() for f in self.reach}
-        src = sources if sources is not None else {entry: set(entry.param_names[1:])}
+        src = sources if sources is not None else {entries[0]: set(entries[0].param_names[1:])}
         for f, ps in src.items():
             self.derived_params.setdefault(f, set()).update(ps)
         self.derived_fields: set = set()   # (class name, field) of per-write objects holding write-derived values
@@ -87,6 +93,8 @@ class WritePathStores:
         dp = self.derived_params.get(f, set())
         for x in subterms(t):
             k = x[0]
+            if self.source_term is not None and self.source_term(x):
+                return True
             if k == "param" and x[1].lstrip("*") in dp:
                 return True
             if k == "free":
@@ -327,7 +335,7 @@ class WritePathStores:
                     key = f"{prefix}{fld}" if fld.startswith("[") else f"{prefix}.{fld}"
                     self.stores.append(PStore(key, fld, tgt, rv, derived, pc, f, res, how, e))
 
-    def _resolve(self, obj, keyterm, val, f, depth, pc=()):
+    def _resolve(self, obj, keyterm, val, f, depth, pc=(), owner=None):
         """Resolve one store (object term, attribute-name term, value term, path condition) made in f to the persistent
         object(s) it lands in: a store through a parameter (object or attribute name) is followed to every call site of
         f, with all terms rewritten into the caller's terms.
@@ -390,11 +398,20 @@ class WritePathStores:
                                 site_pc = ge.pc
                                 break
                         pc2 = site_pc + tuple(substitute(x, amap) for x in pc)
-                        for rec in self._resolve(obj, keyterm, substitute(val, amap), g, depth + 1, pc2):
+                        own = owner or self._owner_class(f)
+                        for rec in self._resolve(obj, keyterm, substitute(val, amap), g, depth + 1, pc2, own):
                             out.append(rec)  # provenance judged on the value as the caller passes it
                 if out:
                     return out
-        return [(p, pre, fld, derived_here, res, pc, obj, val) for p, pre, res in self._classify(obj, f, depth)]
+        out = []
+        for p, pre, res in self._classify(obj, f, depth):
+            if owner is not None and res == "self":
+                c = self._owner_class(f)
+                if c is not None and pre.startswith(c.name) and any(k is c for k in owner.mro()):
+                    pre = owner.name + pre[len(c.name):]   # the most specific class whose method makes the store
+                    p = not any(k.name in self.per_write for k in owner.mro())
+            out.append((p, pre, fld, derived_here, res, pc, obj, val))
+        return out
 
     def _dynamic_names(self, keyterm, f, depth=0) -> set:
         if keyterm is None:
